@@ -77,11 +77,86 @@ class SxContract:
         return []
 
     def native(self, env, inputs):
-        return None
+        """default replay on the real code: the contract itself is re-run on float64 inputs built from the point (see generic_native)"""
+        return generic_native(self, env)
+
+    tie_variants = False    # opt-in (piecewise-constant functions whose boundaries are part of the contract): see native_variants
 
     def native_variants(self, env):
-        """float inputs derived from one sampled point (e.g. rescaled affinities) for the degraded mode"""
+        """float inputs derived from one sampled point (e.g. rescaled affinities) for the degraded mode.
+        With tie_variants, every point is followed by its *boundary* neighbours: one variable set equal to another
+        (a cut point on a data value, two equal data values) -- random points never sit on the boundaries where <
+        and <= differ.  The caller keeps only variants that satisfy the precondition."""
         yield env
+        if self.tie_variants:
+            names = sorted(env)
+            for a in names:
+                for b in names:
+                    if a != b and env[a] != env[b]:
+                        e = dict(env)
+                        e[a] = env[b]
+                        yield e
+
+
+def _real_code_frame(tb):
+    import gemclus
+    root = os.path.dirname(os.path.abspath(gemclus.__file__))
+    while tb is not None:
+        if os.path.abspath(tb.tb_frame.f_code.co_filename).startswith(root):
+            return True
+        tb = tb.tb_next
+    return False
+
+
+def generic_native(c, env, rtol=1e-6, atol=1e-9):
+    """Replay of a contract on the real, unpatched code at one concrete point: build() is re-run with float variables
+    (float64 arrays instead of symbol arrays), body() calls the real functions with only the non-numeric patches kept
+    (validation no-ops, recorders -- the NumPy proxy and the softmax stub are dropped, so real NumPy / scikit-learn run),
+    and every clause of ensures() is evaluated numerically.  Returns {clause: (holds, info)} or None when the contract
+    cannot be replayed this way.  An exception raised *inside GemClus code* propagates (the caller records it as the
+    failing behaviour); an exception of the harness itself yields None."""
+    from . import sx, dag
+    import copy
+    import numpy as np
+    c2 = copy.copy(c)
+    try:
+        inputs = c2.build(sx.FloatCtx(env))
+        keep = []
+        for mod, name, val in c2.patches():
+            if isinstance(val, sx.NPProxy) or val is sx.softmax_stub:
+                continue
+            keep.append((mod, name, val))
+    except Exception:
+        return None
+    old = sx.NATIVE
+    sx.NATIVE = True
+    try:
+        with sx.patched(*keep), np.errstate(all="ignore"):
+            out = c2.body(inputs)
+            clauses = list(c2.ensures(inputs, out))
+    except Exception as e:
+        if _real_code_frame(e.__traceback__):
+            raise
+        return None
+    finally:
+        sx.NATIVE = old
+    res = {}
+    for name, claim in clauses:
+        try:
+            if claim.kind == "holds":
+                res[name] = (bool(claim.a), {"note": claim.note})
+            elif claim.kind == "eq":
+                a, b = dag.fev(claim.a, {}), dag.fev(claim.b, {})
+                ok = (a == a and b == b) and abs(a - b) <= atol + rtol * (abs(a) + abs(b))
+                res[name] = (bool(ok), {"code": a, "spec": b})
+            elif claim.kind == "rel":
+                v = dag.fev(claim.a, {})
+                want = sx.RELSET[claim.b]
+                sg = 0 if abs(v) <= 1e-12 else (1 if v > 0 else -1)
+                res[name] = (bool(v == v and (sg in want or sg == 0)), {"value": v, "required": claim.b})
+        except Exception:
+            continue
+    return res or None
 
 
 def run_sx(contract, seed=0):
@@ -203,8 +278,10 @@ def _degrade(c, ctx, inputs, envf, det):
         if e is not None:
             envs.append(e)
     tried = 0
-    for e0 in envs:
-        for e in c.native_variants(e0):
+    for i0, e0 in enumerate(envs):
+        for iv, e in enumerate(c.native_variants(e0)):
+            if iv > 0 and c.tie_variants and (i0 > 3 or not ctx.pre_holds_at(e)):
+                continue          # boundary variants: first few points only, and only inside the precondition
             tried += 1
             try:
                 r = c.native(e, inputs)
